@@ -297,6 +297,8 @@ func (r *runningRoutine) execute(
 		select {
 		case <-ctx.Done():
 			err = context.Canceled
+			// the previous instance must exit before we report ours as exited
+			<-waitCh
 		case <-waitCh:
 		}
 	} else if ctx.Err() != nil {
